@@ -233,3 +233,38 @@ vm_harness! {
         std::mem::forget(vm);
     }
 }
+
+vm_harness! {
+    fn c09_o4_resize() {
+        // resize keeps the common prefix, zero-fills growth, leaves the other buffer alone; a non-positive, non-int or oversized
+        // size and a dead handle are errors that change nothing. Bound: accepted new sizes 1..=6 (larger accepted sizes are assumed away)
+        type M = BufsG<4, 3>;
+        let (mut vm, m) = M::vm();
+        let (hv, nv) = (Value::from_raw(kani::any()), Value::from_raw(kani::any()));
+        let n_ok = match nv.as_int() { Some(n) => n >= 1 && n <= 6, None => false };
+        let n_refused = match nv.as_int() { Some(n) => n <= 0 || n > (1i64 << 30), None => true };
+        kani::assume(n_ok || n_refused);
+        let r = bytes_real::v_resize(&mut vm, &[hv, nv]);
+        match idx(hv) {
+            Some(h) if h <= 1 && n_ok => {
+                assert!(r.is_ok());
+                let n = nv.as_int().unwrap() as usize;
+                let (t, o) = (buf(&vm, h), buf(&vm, 1 - h));
+                assert!(t.len() == n && o.len() == M::blen(1 - h) && vm.resources.len() == 3 && vm.get_resource(2).is_none());
+                let mut k = 0;
+                while k < n { assert!(t[k] == if k < M::blen(h) { m.get(h, k) } else { 0 }); k += 1; }
+                let mut k = 0;
+                while k < M::blen(1 - h) { assert!(o[k] == m.get(1 - h, k)); k += 1; }
+            }
+            _ => {
+                assert!(r.is_err());
+                assert!(m.agrees(&vm));
+            }
+        }
+        kani::cover!(r.is_ok() && idx(hv) == Some(1) && nv.as_int() == Some(6), "REQ grow 3 -> 6");
+        kani::cover!(r.is_ok() && idx(hv) == Some(0) && nv.as_int() == Some(1), "REQ shrink 4 -> 1");
+        kani::cover!(idx(hv) == Some(2) && n_ok, "REQ freed handle refused");
+        kani::cover!(idx(hv) == Some(0) && nv.as_int() == Some(0), "REQ zero size refused");
+        std::mem::forget(vm);
+    }
+}
